@@ -183,6 +183,7 @@ var oraclesOf = map[string][]string{
 	"C08": {"stable-get", "stable-map", "contiguous-readable", "content-equal", "bounds", "open-succeeds"},
 	"C09": {"format"},
 	"C10": {"open-succeeds", "contiguous-readable", "content-equal", "bounds", "api-error", "no-panic", "model-accepts"},
+	"C11": {"no-panic", "bounded-work", "bounded-alloc", "failed-open-releases", "no-silent-shortening", "decode-robust"},
 	"C12": {"no-aliasing", "content-equal", "codec-identity", "open-succeeds"},
 	"C13": {"dir-matches-metadata", "segment-id-unique", "handles-released"},
 	"C15": {"accepted-is-readable", "content-equal", "contiguous-readable", "bounds", "open-succeeds", "no-panic"},
@@ -418,11 +419,10 @@ func (ex *Exec) Run() (v *Violation, harnessErr string) {
 		}
 		ex.closeBolt()
 		if res.Panicked != nil {
+			// every call into the code under test recovers its own panics (call /
+			// callR); a panic that reaches the task wrapper is the harness's own
 			t := res.Panicked
-			if !ex.stop() {
-				ex.violate("no-panic", "panic:"+panicClass(fmt.Sprint(t.PanicVal), t.PanicStack), "task %s panicked: %v\n%s", t.Name, t.PanicVal, trimStack(t.PanicStack))
-			}
-			break
+			return nil, fmt.Sprintf("harness panic in task %s: %v\n%s", t.Name, t.PanicVal, trimStack(t.PanicStack))
 		}
 		if ex.stop() {
 			break
@@ -684,6 +684,10 @@ func (ex *Exec) mainTask(g *Gen) {
 	}
 	ex.curOp = len(ex.plan.Ops)
 	ex.openWindow(nil)
+	if ex.cfg.Profile == "C11" {
+		ex.corruptAndProbe()
+		return
+	}
 	ex.finalChecks()
 }
 
